@@ -363,7 +363,7 @@ Section Sim.
                   incl (snd s') D' /\ (r = CNormal -> Inv G' s').
   Proof.
     induction n as [|n IH]; intros br c G D s r s' Hok Hi HI HR H; [discriminate|].
-    destruct c as [|c1 c2|x|x e|e|e|cc c1 c2|fn ps body]; simpl in Hok; try discriminate; simpl in H.
+    destruct c as [|c1 c2|x|x e|e|e|cc c1 c2|fn ps body|fx fps fbody|fi fc fu fb]; simpl in Hok; try discriminate; simpl in H.
     - inversion H; subst. exists G, D. split; [reflexivity|]. auto.
     - (* SSeq *)
       apply andb_true_iff in Hok. destruct Hok as [Ha Hb].
